@@ -118,6 +118,7 @@ def job_dump_one(modname):
     required = list(mod.dump_one.required)
     cfg = configure(api_config(), modname, mod, "dump_one")
     cfg.loop_specs[(INNER, 0)] = true_loop("warning_list", "loop.reissue")
+    cfg.anchor_specs.append(("iodata.api", "warning_list", true_loop("warning_list", "loop.reissue")))
     U_ = utils_mod()
 
     def select(interp, args, kwargs):
@@ -231,6 +232,7 @@ def job_dump_many(modname):
     required = list(mod.dump_many.required)
     cfg = configure(api_config(), modname, mod, "dump_many")
     cfg.loop_specs[(INNER, 0)] = true_loop("warning_list", "loop.reissue")
+    cfg.anchor_specs.append(("iodata.api", "warning_list", true_loop("warning_list", "loop.reissue")))
     U_ = utils_mod()
     full = mod.__name__
 
@@ -269,6 +271,7 @@ def job_dump_many(modname):
     cfg.contracts[f"{full}.dump_many"] = fmt_dump_many
     # the loop of the nested generator: `for other in iter_data`
     cfg.loop_specs[(f"{API}.dump_many.<locals>.checking_iterator", 0)] = true_loop("iter_data", "loop.frames")
+    cfg.anchor_specs.append(("iodata.api", "iter_data", true_loop("iter_data", "loop.frames")))
 
     def setup(ctx, interp):
         def item(interp_, k):
@@ -335,7 +338,9 @@ def job_checking_iterator():
     mod = dump_modules("dump_many")[modname]
     cfg = configure(api_config(), modname, mod, "dump_many")
     cfg.loop_specs[(INNER, 0)] = true_loop("warning_list", "loop.reissue")
+    cfg.anchor_specs.append(("iodata.api", "warning_list", true_loop("warning_list", "loop.reissue")))
     cfg.loop_specs[(f"{API}.dump_many.<locals>.checking_iterator", 0)] = true_loop("iter_data", "loop.frames")
+    cfg.anchor_specs.append(("iodata.api", "iter_data", true_loop("iter_data", "loop.frames")))
     cfg.contracts[f"{API}._select_format_module"] = lambda interp, args, kwargs: mod
     U_ = utils_mod()
 
@@ -404,6 +409,7 @@ def job_write_input():
     target = f"{API}.write_input"
     cfg = api_config()
     cfg.loop_specs[(INNER, 0)] = true_loop("warning_list", "loop.reissue")
+    cfg.anchor_specs.append(("iodata.api", "warning_list", true_loop("warning_list", "loop.reissue")))
     U_ = utils_mod()
     inputs = api_mod().INPUT_MODULES
     for name, m in inputs.items():
